@@ -30,11 +30,13 @@ vars == <<cfg, pc, todo, visited, flags, per, res, sums>>
 (* cfg: [L, lags, leads, start, end, min, max, errors, failures, fault]    *)
 (* fault: function 1..L -> {"none","nan","div","exc"}                      *)
 
-Untouched == [st |-> "-", it |-> -1, ver |-> "init"]
+(* what every period looks like before the call: fresh, or carrying the stamps of an earlier solve (cfg.prior) *)
+Untouched == IF cfg.prior THEN [st |-> ".", it |-> 7, ver |-> "init"] ELSE [st |-> "-", it |-> -1, ver |-> "init"]
+UntouchedOf(c) == IF c.prior THEN [st |-> ".", it |-> 7, ver |-> "init"] ELSE [st |-> "-", it |-> -1, ver |-> "init"]
 Running   == [kind |-> "running", at |-> 0]
 
 InitWith(c) == /\ cfg = c /\ pc = "minmax" /\ todo = <<>> /\ visited = <<>> /\ flags = <<>>
-               /\ per = [p \in 1..c.L |-> Untouched] /\ res = Running /\ sums = <<>>
+               /\ per = [p \in 1..c.L |-> UntouchedOf(c)] /\ res = Running /\ sums = <<>>
 Init == \E c \in Cfgs : InitWith(c)
 
 Finish(kind, at) == pc' = "done" /\ res' = [kind |-> kind, at |-> at]
@@ -71,7 +73,7 @@ ConvIt == Max2(2, cfg.min)      \* the scripted "none" period settles on its sec
 InfeasibleAt(p) == p - cfg.lags < 1 \/ p + cfg.leads > cfg.L   \* solve_t rejects such a period before anything changes
 Summary(p) ==
   LET f == cfg.fault[p] IN
-  CASE InfeasibleAt(p) -> [st |-> "-", it |-> -1, ret |-> "IndexError"]
+  CASE InfeasibleAt(p) -> [st |-> Untouched.st, it |-> Untouched.it, ret |-> "IndexError"]
     [] f = "none" -> IF ConvIt <= cfg.max THEN [st |-> ".", it |-> ConvIt, ret |-> "True"]
                      ELSE [st |-> "F", it |-> cfg.max, ret |-> IF cfg.failures = "raise" THEN "NonConvergenceError" ELSE "False"]
     [] f = "div"  -> [st |-> "F", it |-> cfg.max, ret |-> IF cfg.failures = "raise" THEN "NonConvergenceError" ELSE "False"]
@@ -79,7 +81,7 @@ Summary(p) ==
                        [] cfg.errors = "skip"  -> [st |-> "S", it |-> 1, ret |-> "False"]
                        [] OTHER                -> [st |-> "F", it |-> cfg.max, ret |-> IF cfg.failures = "raise" THEN "NonConvergenceError" ELSE "False"]
     [] f = "exc"  -> IF cfg.errors = "raise" THEN [st |-> "E", it |-> 1, ret |-> "SolutionError"]
-                     ELSE [st |-> "-", it |-> -1, ret |-> "SolutionError"]
+                     ELSE [st |-> Untouched.st, it |-> Untouched.it, ret |-> "SolutionError"]
 
 Raises(s) == s.ret \notin {"True", "False"}
 
@@ -89,7 +91,7 @@ Visit(s) ==
   /\ LET p == Head(todo)
      IN  /\ visited' = Append(visited, p) /\ sums' = Append(sums, s)
          /\ per' = [per EXCEPT ![p] = [st |-> s.st, it |-> s.it,
-                                       ver |-> IF s.st = "." THEN "done" ELSE IF s.st = "-" THEN "init" ELSE "partial"]]
+                                       ver |-> IF Raises(s) /\ s.st = Untouched.st /\ s.it = Untouched.it THEN "init" ELSE IF s.st = "." THEN "done" ELSE "partial"]]
          /\ IF Raises(s)
               THEN Finish(s.ret, p) /\ UNCHANGED <<todo, flags>>
               ELSE /\ flags' = Append(flags, s.ret = "True") /\ todo' = Tail(todo)
